@@ -12,6 +12,8 @@ Decided clauses:
 from __future__ import annotations
 
 import ast
+
+from sa.core import register_cache  # noqa: E402
 import re
 
 from sa.core import AnalysisError, attr_chain, enclosing, norm, parents, walk_no_nested
@@ -83,7 +85,7 @@ def _tracer_receiver(attr):
     return False
 
 
-_TAINT = {}
+_TAINT = register_cache({})
 
 
 def _tainted_names(p, f):
